@@ -37,9 +37,12 @@ structure Opts where
 structure Arith where
   scaled : Value → Nat → Nat → Nat → Option Value
   degrees : Nat → Nat
+  /-- a FLOAT cell (float64 bits of the text) read for a float32/float64 field WITH a scale or offset:
+  `T(Discard(x, scale, offset))` (`none` = outside the model) -/
+  fscaled : Nat → Nat → Nat → Nat → Option Value := fun _ _ _ _ => none
 
 /-- the hypothesis under which the converters can round-trip at all: the arithmetic gives every value back -/
-def Arith.id : Arith := { scaled := fun v _ _ _ => some v, degrees := fun s => s }
+def Arith.id : Arith := { scaled := fun v _ _ _ => some v, degrees := fun s => s, fscaled := fun _ _ _ _ => none }
 
 /-- one `|`-separated piece of a value cell -/
 inductive Atom
@@ -75,7 +78,10 @@ def pfield (mesgNum num : Nat) : Option PField :=
 
 def unknownTxt : Txt := txt nameUnknown
 
-def natDigits (n : Nat) : Txt := txt (toString n)
+/-- decimal digits of `n` as bytes (`strconv.Itoa`; the text layer is taken per contract, see the header) -/
+def natDigits (n : Nat) : Txt := if n < 10 then [48 + n] else natDigits (n / 10) ++ [48 + n % 10]
+termination_by n
+decreasing_by omega
 
 /-- `formatUnknown(n)` = "unknown(n)" -/
 def formatUnknown (n : Nat) : Txt := unknownTxt ++ txt "(" ++ natDigits n ++ txt ")"
@@ -115,6 +121,13 @@ def widen32 (b : Nat) : Nat :=
       let k := m.log2            -- position of the leading one, 0..22
       s * 2 ^ 63 + (1023 - 126 - (23 - k)) * 2 ^ 52 + ((m - 2 ^ k) * 2 ^ (52 - k))
   else s * 2 ^ 63 + (e + 1023 - 127) * 2 ^ 52 + m * 2 ^ 29
+
+/-- the text of the float64 surely contains a '.', which is what sends a cell through the reader's scaled path: a finite
+value below 2^63 in magnitude that is 0 or at least 1e-4 is printed "x.0" (integral) or in positional notation with a
+fraction. (Outside: 'g' prints a one-digit mantissa as "1e-05" / "1e+20", without one.) -/
+def dotSure (b : Nat) : Bool :=
+  let a := b % 2 ^ 63
+  a / 2 ^ 52 < 1023 + 63 && (a == 0 || a ≥ 0x3F1A36E2EB1C432D)
 
 def isNaN64 (b : Nat) : Bool := b / 2 ^ 52 % 2048 == 2047 && b % 2 ^ 52 != 0
 def isNaN32 (b : Nat) : Bool := b / 2 ^ 23 % 256 == 255 && b % 2 ^ 23 != 0
@@ -399,9 +412,13 @@ def parseAtom (ar : Arith) (a : Atom) (bt : Nat) (isBool : Bool) (scale offset :
     else .ok .invalid       -- no case of the switch: the zero Value, no error
   | .flt b =>
     if bt == btFloat32 then
-      if isScaledField scale offset then .unmodelled else .ok (.float32 (narrow32 b))
+      if isScaledField scale offset then
+        (if dotSure b then (match ar.fscaled b bt scale offset with | some v => .ok v | none => .unmodelled) else .unmodelled)
+      else .ok (.float32 (narrow32 b))
     else if bt == btFloat64 then
-      if isScaledField scale offset then .unmodelled else .ok (.float64 (if isNaN64 b then float64Invalid else b))
+      if isScaledField scale offset then
+        (if dotSure b then (match ar.fscaled b bt scale offset with | some v => .ok v | none => .unmodelled) else .unmodelled)
+      else .ok (.float64 (if isNaN64 b then float64Invalid else b))
     else if bt == btString then .unmodelled
     else if b / 2 ^ 52 % 2048 == 2047 then .err     -- "NaN", "+Inf", "-Inf" have no dot: ParseInt / ParseUint fail
     else .unmodelled
@@ -489,16 +506,6 @@ inductive Parsed
   | skip
   deriving Repr
 
-/-- float64 bits of a description's scale (uint8) / offset (int8): small integers -/
-def f64OfSmall (n : Nat) : Nat :=
-  if n == 0 then 0 else
-  let k := n.log2
-  (1023 + k) * 2 ^ 52 + (n - 2 ^ k) * 2 ^ (52 - k)
-
-def descScale (d : Desc) : Nat := if d.scale != 255 then f64OfSmall d.scale else f64One
-def descOffset (d : Desc) : Nat :=
-  if d.offset != 127 then (if d.offset ≥ 128 then 2 ^ 63 + f64OfSmall (256 - d.offset) else f64OfSmall d.offset) else 0
-
 def mkField (num bt : Nat) (v : Value) : Field := { base := some { num := num, baseType := bt }, value := v }
 
 /-- `createField` / `createDeveloperField` / placeholder for one (name, value, units) triple of message `mesgNum` -/
@@ -528,15 +535,17 @@ def readCell (ar : Arith) (ds : List Desc) (mesgNum : Nat) (c : Cell) : R Parsed
     | .unmodelled => .unmodelled
   | none =>
     if isPrefixOf' unknownTxt c.name then .ok .skip else     -- unknown without a number: unknownField++
-    match ds.reverse.find? (fun d => d.name == c.name) with     -- the most recent description with that name
+    -- the most recent description with that name; its scale and offset are NOT used: the writer prints developer
+    -- field values as they are (/repo fix of KF-C19-6)
+    match ds.reverse.find? (fun d => d.name == c.name) with
     | some d =>
       let r := if c.val.length != 1 then
-          match mapR (fun a => parseAtom ar a d.bt false (descScale d) (descOffset d) c.units) c.val with
+          match mapR (fun a => parseAtom ar a d.bt false f64One 0 c.units) c.val with
           | .ok vs => R.ok (packValues vs)
           | .err => .err
           | .unmodelled => .unmodelled
         else match c.val with
-          | [a] => parseAtom ar a d.bt false (descScale d) (descOffset d) c.units
+          | [a] => parseAtom ar a d.bt false f64One 0 c.units
           | _ => .unmodelled
       match r with
       | .ok .invalid => .ok (.placeholder c.name c.val)
